@@ -22,9 +22,9 @@ fn slice(tier: Tier) -> Vec<(String, PProblem)> {
     let mut out = vec![];
     for (name, problems) in all_families(Tier::Quick) {
         let per = match (name, tier) {
-            ("core", Tier::Quick) => 8,
+            ("core", Tier::Quick) => 16,
             ("core", _) => 60,
-            (_, Tier::Quick) => 2,
+            (_, Tier::Quick) => 4,
             _ => 10,
         };
         let candidates: Vec<PProblem> = problems.into_iter().filter(|p| p.jobs.len() >= 2).collect();
